@@ -135,7 +135,8 @@ check("C10", "model_checking",
       "try_recv_timeout is replayed sequentially and each result compared - this stage does not depend on which system "
       "calls the transport makes. A timed receive asleep in recvmsg on the channel's socket (a wait without timeout) is a "
       "violation; waits that expire get 3/0.3/20/0/1/2 ms (and 1250/2100 ms in one plan) and are measured from the release "
-      "of the poll gate.",
+      "of the poll gate. Signal stage: timed receives on an idle connected channel while signals (handler without "
+      "SA_RESTART) hit the waiting thread: no 'empty' before the requested time, the channel works afterwards.",
       "Timing uses the receiving thread's own monotonic clock only; durations up to 8 s; the mutant RestoreBlocking=FALSE "
       "violates BlockingRestored in the model.",
       "TLC exhaustive model checking of Transport.tla + gated replay with timing floors + replay of Channels.tla behaviours at call level",
@@ -161,7 +162,9 @@ check("C06", "model_checking",
       "system-call hooks (EINTR by a real signal into epoll_wait); per member the events must be exactly its messages in "
       "order then one closed event, ids unique, and select must not stay asleep while the model has an event pending. "
       "Plans: 200 messages queued before the set looks, 11 members ready in one epoll_wait (events capacity 10), members "
-      "created after others have left the set (descriptor numbers reused), sender killed mid-message.",
+      "created after others have left the set (descriptor numbers reused), sender killed mid-message. Burst stage: the "
+      "model's 'all sends, then selects' behaviours free-running at sizes that reach the code's capacities (12x40 ... 64x5 "
+      "members x queued messages; in-process and memfd builds in the thorough tier).",
       "Premise K10; mutants DrainOne and LevelBlindAdd violate ETInv in the model; cross-member order inside one batch "
       "follows the kernel and only matters for 'matched' accounting; macOS/Windows/in-process sets unbound here.",
       "TLC exhaustive model checking of ReceiverSet.tla + gated replay of TLC-generated interleavings",
@@ -213,7 +216,8 @@ check("C08", "model_checking",
       "of connect/send/accept/recv, message order and contents, existence of the socket path and its directory, "
       "distinctness of all names issued, and the process' descriptor count at the end of the behaviour. Further modes: the "
       "behaviours executed in a fork(2)ed child of a process that has used the library before; a process client that sends "
-      "60 multi-packet messages before the server accepts; spawned clients report listening sockets they were born with.",
+      "60 multi-packet messages before the server accepts; spawned clients report listening sockets they were born with; "
+      "behaviours with a pause of 2.3-11 s between connect and the first send while the server sits in accept.",
       "Premise K11; clients are spawned (not forked); 1..3 messages per client in generated behaviours.",
       "TLC exhaustive + simulation of OneShot.tla, behaviours replayed through the API with per-step projection",
       "DESIGN.md 3.8, 6 (C08)")
